@@ -110,7 +110,7 @@ def translate_block(name, lines):
         elif op in ("lea", "leaq") and len(ops) == 2:
             off, base = memop(ops[0])
             out.append(".lea %d %s %s" % (off, base, reg(ops[1])))
-        elif op == "andq" and len(ops) == 2 and imm(ops[0]) in (0xfffffffffffffff0, -16):
+        elif op in ("andq", "and") and len(ops) == 2 and imm(ops[0]) in (0xfffffffffffffff0, -16):
             out.append(".and16 %s" % reg(ops[1]))
         elif op == "push" and len(ops) == 1:
             out.append(".push %s" % reg(ops[0]))
@@ -186,6 +186,90 @@ def main(srcdir):
     text = "\n".join(L)
     changed = write_if_changed(os.path.join(LEAN, "Uft/Gen/Stubs.lean"), text)
     return changed, text
+
+
+def disassemble(obj):
+    """objdump -dr of a compiled stub object -> {symbol: [instruction lines in the translator's input syntax]}"""
+    import subprocess
+    out = subprocess.run(["objdump", "-dr", "--no-show-raw-insn", obj], stdout=subprocess.PIPE, text=True, check=True).stdout
+    blocks, cur, addr_of = {}, None, {}
+    raw = {}
+    for ln in out.split("\n"):
+        m = re.match(r"^[0-9a-f]+ <(\w+)>:$", ln)
+        if m:
+            cur = m.group(1)
+            raw[cur] = []
+            continue
+        if cur is None:
+            continue
+        m = re.match(r"^\s*([0-9a-f]+):\s+(R_X86_64_\w+)\s+(\S+)$", ln)
+        if m:                                   # relocation of the previous instruction
+            sym = re.sub(r"[-+]0x[0-9a-f]+$", "", m.group(3))
+            raw[cur][-1]["reloc"] = sym
+            continue
+        m = re.match(r"^\s*([0-9a-f]+):\s+(.*?)\s*$", ln)
+        if m and m.group(2):
+            raw[cur].append({"addr": int(m.group(1), 16), "text": re.sub(r"\s+#.*$", "", m.group(2))})
+    for name, ins in raw.items():
+        lines = []
+        i = 0
+        while i < len(ins):
+            t = ins[i]["text"]
+            op = t.split()[0]
+            if op in ("nop", "nopw", "nopl", "xchg", "cs", "data16") :      # padding after the stub
+                i += 1
+                continue
+            if op == "call":
+                lines.append("call %s" % ins[i].get("reloc", "?"))
+            elif op == "cmp" and i + 4 < len(ins):
+                # the conditional tail of plt_hooker
+                t1, t2, t3, t4 = (ins[i + k]["text"] for k in (1, 2, 3, 4))
+                m2 = re.match(r"(je|jz)\s+([0-9a-f]+)", t2)
+                ok = (re.fullmatch(r"cmp\s+\$0x0,%r11", t) and re.match(r"cmove\s+0x0\(%rip\),%r11", t1) and m2
+                      and re.fullmatch(r"add\s+\$0x10,%rsp", t3) and re.fullmatch(r"jmp\s+\*%r11", t4)
+                      and int(m2.group(2), 16) == ins[i + 4]["addr"])
+                if not ok:
+                    raise TranslateError("%s: unexpected conditional code in the object: %r" % (name, [x["text"] for x in ins[i:i + 5]]))
+                lines += ["cmpq $0, %r11", "cmovz %s(%%rip), %%r11" % ins[i + 1].get("reloc", "?"), "jz 1f",
+                          "add $16, %rsp", "1:", "jmp *%r11"]
+                i += 5
+                continue
+            else:
+                lines.append(t)
+            i += 1
+        blocks[name] = lines
+    return blocks
+
+
+def crosscheck(srcdir):
+    """Assembler check of the translation: the instruction lists translated from the .S text must equal
+    the ones translated from the disassembly of the objects built from the same .S (macro expansion,
+    conditional assembly and operand encoding are then covered). Returns a list of differences."""
+    src = {}
+    for f in FILES:
+        src.update(parse_file(os.path.join(srcdir, "arch/x86_64", f)))
+    obj = {}
+    for f in FILES:
+        o = os.path.join(srcdir, "arch/x86_64", f[:-2] + ".op")
+        if not os.path.exists(o):
+            return ["object %s not built" % o]
+        obj.update(disassemble(o))
+    diffs = []
+    for n in ["mcount", "mcount_return", "__fentry__", "__dentry__", "dynamic_return", "plt_hooker", "plthook_return"]:
+        a = translate_block(n, src[n])
+        if n not in obj:
+            diffs.append("%s: not in the objects" % n)
+            continue
+        try:
+            b = translate_block(n, obj[n])
+        except TranslateError as e:
+            diffs.append("%s: object code not translatable: %s" % (n, e))
+            continue
+        if a != b:
+            k = next((i for i, (x, y) in enumerate(zip(a, b)) if x != y), min(len(a), len(b)))
+            diffs.append("%s: instruction %d differs: source %s / object %s (lengths %d/%d)" % (
+                n, k, a[k] if k < len(a) else "-", b[k] if k < len(b) else "-", len(a), len(b)))
+    return diffs
 
 
 if __name__ == "__main__":
